@@ -109,7 +109,8 @@ def load_known() -> List[dict]:
 
 def replay_file(pid: str, path: str) -> dict:
     """Replay a stored counterexample on the un-shimmed real code in a fresh interpreter."""
-    env = dict(os.environ, VF_CONCRETE="1", PYTHONPATH=ROOT)
+    pp = os.environ.get("PYTHONPATH", "")
+    env = dict(os.environ, VF_CONCRETE="1", PYTHONPATH=pp if ROOT in pp.split(":") else (ROOT + (":" + pp if pp else "")))
     p = subprocess.run(
         [sys.executable, "-m", "vf.main", pid, "--replay-internal", path],
         cwd=ROOT,
